@@ -456,7 +456,7 @@ def rule_r3(repo: Repo, res: Result) -> None:
             else:
                 if any(k_ == "item" and v_[0] == "attr" and v_[2] == FIRST_PART for k_, v_ in d):
                     why = "cuts the file name at its first '.', which is not where the suffix starts (`a.b.py`)"
-                elif not d or d[0] != want[0]:
+                elif not d or (d[0] != want[0] and not (d[0][0] == "parts" and want[0][0] == "parts" and d[0][1][0] == "REL" and want[0][1][0] == "REL" and d[0][1][2] == want[0][1][2])):
                     why = "does not start with the root directory's name"
                 else:
                     why = "is not the path relative to the root with the suffix removed, one component per path part"
@@ -699,6 +699,7 @@ def _chain_pos_raw(t: Term):
         cnt = _counter(i)
         if cnt is not None:
             k, off, start, stop = cnt
+            base = _mapped_source(base)
             c = _len_offset(stop, base)
             if c is None:
                 return None
@@ -1502,7 +1503,13 @@ def rule_r5(repo: Repo, res: Result) -> None:
             name = restrict(e.args[1], e.guard)
             carried = [x for x in subterms(name) if x[0] == "loopvar"]
             if carried:
-                res.add("C04.R5", key + " [absolute importee adjusted]", False, f"the importee of one imported name depends on the previous one: `{carried[0][1]}` is carried over from an earlier iteration of the loop over the imported names", where(e.fi, e.node), kind="flow")
+                # only a value carried around the loop over the imported names (`for alias in node.names`) mixes up importees
+                loop = next((l for l in e.loops if l.id == carried[0][2]), None)
+                over_names = loop is not None and loop.iter is not None and any(x[0] == "attr" and x[2] == "names" for x in subterms(loop.iter))
+                if over_names:
+                    res.add("C04.R5", key + " [absolute importee adjusted]", False, f"the importee of one imported name depends on the previous one: `{carried[0][1]}` is carried over from an earlier iteration of the loop over the imported names", where(e.fi, e.node), kind="flow")
+                else:
+                    res.undecide("C04.R5", key + " [absolute importee adjusted]", f"cannot tell what `{carried[0][1]}`, which changes from one iteration of a loop to the next, contributes to the importee name", where(e.fi, e.node))
                 continue
             verdict, detail = _check_adjusted_by_cases(sx2, name, P, I, e.guard)
             if verdict is None:
